@@ -117,7 +117,7 @@ pub fn install_panic_hook() {
             };
             let (file, line) = info.location().map(|l| (l.file().to_string(), l.line())).unwrap_or_default();
             let acct = crate::monitor::alloc::pause();
-            let bt = std::backtrace::Backtrace::force_capture().to_string();
+            let bt = if cfg!(miri) { String::new() } else { std::backtrace::Backtrace::force_capture().to_string() };
             if std::env::var_os("VERIF_DEBUG_BT").is_some() {
                 eprintln!("{bt}");
             }
